@@ -59,8 +59,19 @@ K("awkward_ListArray_rpad_axis1",
   serves=["C09", "C12", "C13"])
 
 K("awkward_ListOffsetArray_reduce_nonlocal_outstartsstops_64",
-  requires=["lendistincts >= outlength", "implies(outlength == 0, lendistincts == 0)",
-            "forall(q, 0, lendistincts, gaps[q] >= 1)", "forall(q, 0, lendistincts, distincts[q] >= -1)"],
-  loops={"L0": ["0 <= i", "0 <= j", "0 <= k", "maxdistinct >= -1", "implies(maxdistinct >= 0, k >= 1)"]},
-  notes="divides by lendistincts/outlength inside the loop: needs lendistincts >= outlength (so the quotient is >= 1 whenever the loop runs)",
+  ghost={"MC": ("", "ite(outlength == 0, 0, cdiv(lendistincts, outlength))")},
+  extents={"outstarts": "outlength", "outstops": "outlength", "distincts": "lendistincts", "gaps": "0"},
+  requires=["lendistincts >= 0", "outlength >= 0"],
+  loops={"L0": ["0 <= k", "0 <= i", "i == k * maxcount", "maxcount == MC()", "maxcount * outlength <= lendistincts", "maxcount >= 0",
+                "forall(q, 0, k, outstarts[q] == q * maxcount)",
+                "forall(q, 0, k, q * maxcount <= outstops[q] and outstops[q] <= (q + 1) * maxcount)"],
+         "L0.0": ["0 <= j", "j <= maxcount", "i == k * maxcount + j", "(k + 1) * maxcount <= lendistincts",
+                  "outstarts[k] == k * maxcount", "k * maxcount <= outstops[k]", "outstops[k] <= i",
+                  "forall(q, 0, k, outstarts[q] == q * maxcount)",
+                  "forall(q, 0, k, q * maxcount <= outstops[q] and outstops[q] <= (q + 1) * maxcount)"]},
+  ensures_ok=["forall(q, 0, outlength, outstarts[q] == q * MC())",
+              "forall(q, 0, outlength, outstarts[q] <= outstops[q] and outstops[q] <= (q + 1) * MC())"],
+  store_asserts={"outstarts": ["index == k", "value == i"], "outstops": ["index == k", "value == i or value == i + 1"]},
+  notes="output list k is the k-th segment of maxcount = lendistincts / outlength slots of distincts, cut after its last slot in use; "
+        "every write is to slot k < outlength (the 1.4.0 kernel advanced k by a gap count and wrote past outlength: fixed)",
   serves=["C03", "C12", "C13"])
